@@ -60,10 +60,10 @@ OPS = ["NewObjectId", "AddObject", "Replace", "DeleteObject", "RemoveAnnot", "Pr
        "GetOrCreateResources", "AddXObject", "AddGraphicsState", "BuildOutline", "Save", "SaveLoad",
        "AddToPageContent", "InsertImage", "InsertFormObject"]
 # violation tags the model produces "as the code is" (the Allowed constant of the cfgs): the known findings
-MODEL_FINDINGS = ["resources.shadow.deep", "fresh.aboveMax", "maxid.setObject", "counts.indirect", "delete.bookmark"]
+MODEL_FINDINGS = []          # repaired: resources.shadow.deep 8ecb6b6, fresh.aboveMax / maxid.setObject 692e806, counts.indirect 517c497, delete.bookmark d56c356
 # ... and with the repaired defects seeded back (Editing!DevSeeded / FormerFindings): the negative control of the Judge
 FORMER_FINDINGS = ["delete.array.dup", "delete.streamdict", "delete.trailer", "resources.shadow", "contents.refToArray",
-                   "content.streamBoundary", "content.sharedStream", "resources.nameCollision"]
+                   "content.streamBoundary", "content.sharedStream", "resources.nameCollision", "resources.shadow.deep", "fresh.aboveMax", "maxid.setObject", "counts.indirect", "delete.bookmark"]
 DRIFT = ("drift.",)
 
 
